@@ -195,6 +195,8 @@ def run(ctx):
     slice_closure(ctx, py)
     disjoint_all_pairs(ctx, py)
     parser_state_fresh(ctx, py)
+    variables_complete(ctx, py)
+    optional_fields(ctx, py)
     ctx.floor('encoder-exhaustive', 9)
     ctx.floor('keyword-agreement', 8)
     ctx.floor('statement-letter', 5)
@@ -429,6 +431,78 @@ def slice_closure(ctx, py: PyRepo):
     ctx.analysed['slice: emission sites'] = len(emitted)
     ctx.analysed['slice: origins scanned'] = {'constants': sorted(scan_c), 'variables': sorted(scan_m)}
     ctx.floor('slice-closure', 12)
+
+
+def variables_complete(ctx, py: PyRepo):
+    """the slicer declares what `get_metavariables()` reports: every node class must report the variables of ALL its term- or
+    statement-valued children - a loop over the whole field whose every iteration adds the child's variables (no skipped kinds)"""
+    from ..core import astpaths
+    mi = py.module(AST)
+    n = 0
+    for c in mi.classes.values():
+        fn = c.methods.get('get_metavariables')
+        if fn is None:
+            continue
+        fields = [(st.target.id, ast.unparse(st.annotation)) for st in c.node.body if isinstance(st, ast.AnnAssign) and isinstance(st.target, ast.Name)]
+        kids = [f for f, ann in fields if re.search(r'\b(Term|Terms|Statement|Metavariable)\b', ann) and ('tuple' in ann or ann == 'Terms')]
+        where = py.where(AST, fn)
+        for f in kids:
+            n += 1
+            loops = [x for x in ast.walk(fn) if isinstance(x, ast.For) and ast.unparse(x.iter) == f'self.{f}' and isinstance(x.target, ast.Name)]
+            comps = [x for x in ast.walk(fn) if isinstance(x, (ast.SetComp, ast.ListComp, ast.GeneratorExp)) and len(x.generators) == 1
+                     and ast.unparse(x.generators[0].iter) == f'self.{f}']
+            ok, why = False, f'{c.name}.get_metavariables does not range over `self.{f}`'
+            if loops:
+                lp = loops[0]
+                v = lp.target.id
+                ok = True
+                for sp in astpaths.paths(lp.body):
+                    if sp.end in ('fall', 'continue'):
+                        adds = [a for a in sp.actions for x in ast.walk(a) if isinstance(x, ast.Call) and isinstance(x.func, ast.Attribute)
+                                and x.func.attr in ('update', 'add', 'union') and v in {y.id for y in ast.walk(x) if isinstance(y, ast.Name)}]
+                        if not adds:
+                            ok = False
+                            why = (f'{c.name}.get_metavariables skips a child of `self.{f}` when '
+                                   + (' and '.join(f'{cc} is {b}' for cc, b in sp.conds) or 'always')
+                                   + ': a variable that occurs only there is not reported, so the slicer neither declares it nor keeps its '
+                                     'floating hypothesis')
+            elif comps:
+                ok = not comps[0].generators[0].ifs
+                why = f'{c.name}.get_metavariables filters `self.{f}`'
+            ctx.ob('variables-complete', f'{c.name}.{f}', ok, why, where)
+    ctx.floor('variables-complete', 4)
+
+
+def optional_fields(ctx, py: PyRepo):
+    """`proof: str | None` - an EMPTY proof is a proof (the grammar has `proof: token*`): a field that may hold a falsy value besides
+    None must be tested with `is None`, or printing turns `$= $.` into `$= ? $.` and the database does not re-parse to itself"""
+    from .c13 import FnScan, classify
+    mi = py.module(AST)
+    optional = {}
+    for c in mi.classes.values():
+        for st in c.node.body:
+            if isinstance(st, ast.AnnAssign) and isinstance(st.target, ast.Name):
+                cl = classify(ast.unparse(st.annotation), py, AST)
+                if cl is not None and cl[0]:
+                    optional[st.target.id] = (c.name, ast.unparse(st.annotation))
+    n = 0
+    for mname in (AST, SLICER, PARSER, 'metamath.utils.printer'):
+        m = py.modules.get(mname)
+        if m is None:
+            continue
+        fns = [(f.name, f) for f in m.functions.values()] + [(f'{c.name}.{f.name}', f) for c in m.classes.values() for f in c.methods.values()]
+        for qn, fn in fns:
+            sc = FnScan()
+            for st in fn.body:
+                sc.visit(st)
+            for e, node in sc.contexts:
+                if isinstance(e, ast.Attribute) and e.attr in optional:
+                    n += 1
+                    cname, ann = optional[e.attr]
+                    ctx.ob('optional-field-truthiness', f'{mname}.{qn}:{ast.unparse(e)}', False,
+                           f'`{ast.unparse(e)}` ({cname}.{e.attr}: {ann}) is tested for truthiness: the empty value is a legitimate '
+                           f'{e.attr} and is treated like a missing one', py.where(mname, e))
+    ctx.ob('optional-field-truthiness', 'scan', bool(optional), f'{len(optional)} optional fields with a falsy inhabitant; {n} truthiness tests', '')
 
 
 def disjoint_all_pairs(ctx, py: PyRepo):
